@@ -39,6 +39,8 @@ pub fn check(tier: Tier) -> Check {
     // a future created long before its first poll: by then the counters have gone once round (rewound
     // by the hook here) and another operation holds the values they had at creation time
     parts.push(Part::new("C11/parked", json!({}), 0, 60));
+    // two Contexts in one process: the identifiers of one are no business of the other
+    parts.push(Part::new("C11/two-clients", json!({}), 0, 120));
     parts.push(Part::new("C11/hook-validate", json!({}), 0, 120));
     parts.push(Part::new("C11/loom", json!({"thorough": tier == Tier::Thorough}), 0, 600));
     Check {
@@ -275,7 +277,53 @@ fn parked(name: String, params: Value) -> Scenario {
     })
 }
 
+/// Two clients (two Contexts) in one process: client A keeps one operation outstanding while client B
+/// goes once round its identifiers; A's next operations still get identifiers A does not hold.
+fn two_clients(name: String, params: Value) -> Scenario {
+    Box::new(move |chz, ex| {
+        let kind = chz.choose(3);
+        let mut a = Sys::new("C11", &name, chz);
+        a.params = params.clone();
+        a.m.check_client_acks = false;
+        a.bring_up(vec![]);
+        let first = match kind {
+            0 => OpSpec::Publish(PublishSpec::simple(1, "t/a", b"held")),
+            1 => OpSpec::Publish(PublishSpec::simple(2, "t/a", b"held")),
+            _ => OpSpec::Subscribe(SubscribeSpec::simple("s/a")),
+        };
+        a.apply(Ev::Start(first));
+        let mut b = Sys::new("C11", &name, chz);
+        b.m.check_client_acks = false;
+        b.bring_up(vec![]);
+        for _ in 0..65_534usize {
+            if b.dead {
+                break;
+            }
+            b.apply(Ev::Start(OpSpec::Publish(PublishSpec::simple(1, "t/b", b"x"))));
+            let op = b.m.ops.len() - 1;
+            finish_op(&mut b, op);
+        }
+        for i in 0..4usize {
+            let spec = match i % 2 {
+                0 => OpSpec::Publish(PublishSpec::simple(1, "t/a", b"next")),
+                _ => OpSpec::Subscribe(SubscribeSpec::simple("s/next")),
+            };
+            a.apply(Ev::Start(spec));
+        }
+        a.finish();
+        b.finish();
+        let mut v = std::mem::take(&mut b.violations);
+        a.violations.append(&mut v);
+        a.m.hits.push("pid-wrapped");
+        a.events = vec![format!("client A holds one operation (kind {}), client B allocates 65 534 identifiers, A starts four more", kind)];
+        a.report(ex, &["pid-wrapped"]);
+    })
+}
+
 pub fn scenario(name: &str, params: &Value) -> Scenario {
+    if name == "C11/two-clients" {
+        return two_clients(name.to_string(), params.clone());
+    }
     if name == "C11/parked" {
         return parked(name.to_string(), params.clone());
     }
